@@ -46,6 +46,33 @@ def str_lits(body):
     return out
 
 
+def exl_reader(ctx, er, rule, order_rule):
+    """Obligations on EXL::from_existing (shared with C05, which locates sheets through the parsed root list)."""
+    rl = str_lits(er)
+    ctx.ob(rule, "exl|reader-comma", rl.get("split_once", set()) == {","}, f"reader splits rows on {sorted(rl.get('split_once', set()))}", er.file, er.line)
+    eqs = set()
+    for k_, v in rl.items():
+        if k_ in ("eq", "ne"):
+            eqs |= v
+    ctx.ob(rule, "exl|reader-header-name", "EXLT" in eqs, f"reader recognises the header row by comparing the name with {sorted(eqs)}", er.file, er.line)
+    ctx.ob(rule, "exl|reader-comment", rl.get("starts_with", set()) == {"#"}, f"reader skips rows starting with {sorted(rl.get('starts_with', set()))}", er.file, er.line)
+    calls_r = [(t.get("res") or "") for _bi, t in er.calls()]
+    # rows end with LF or CRLF (the retail root list uses CRLF): lines() strips both; a manual split on LF must drop the CR
+    lines_ok = any(c.endswith("::lines") for c in calls_r)
+    manual = "\n" in (rl.get("split", set()) | rl.get("split_terminator", set())) and ("\r" in (rl.get("trim_end_matches", set()) | rl.get("strip_suffix", set())) or any(c.endswith("str::trim_end") or c.endswith("str::trim") for c in calls_r))
+    ctx.ob(rule, "exl|reader-lines", lines_ok or manual, "reader splits rows with lines() (LF, a trailing CR stripped) or splits on LF and drops the CR itself", er.file, er.line)
+    # version/entries destinations
+    eix = index_of(er)
+    ver = ent = False
+    for _bi, _si, s in er.stmts():
+        if s["k"] == "assign" and any(isinstance(pr, dict) and pr.get("n") == "version" for pr in s["lhs"]["p"]):
+            ver = True
+    for _bi, t in er.calls():
+        if (t.get("res") or "").endswith("::push") and "entries" in derive(eix, t["args"][0]).names:
+            ent = True
+    ctx.ob(order_rule, "exl|reader-destinations", ver and ent, "the EXLT row sets version; other rows are appended to entries in file order", er.file, er.line)
+
+
 def run(ctx):
     prog = ctx.prog
     ctx.decided("writer separators/terminators equal reader split characters for both formats (SEPS)")
@@ -117,26 +144,7 @@ def run(ctx):
         row = [t for t in tpls if t.shape() == [("lit", "\n"), ("arg", ""), ("lit", ","), ("arg", "")]]
         ctx.ob("SEPS", "exl|header-template", len(hdr) == 1 and "version" in (hdr[0].pieces[1][3] or ""), f"list header template(s) {shapes}; must be 'EXLT,' version", ew.file, ew.line)
         ctx.ob("SEPS", "exl|row-template", len(row) == 1 and [(p[3] or "").strip() for p in row[0].pieces if p[0] == "arg"] == ["key", "value"], "row template must be LF name ',' id", ew.file, ew.line, sample=True)
-        rl = str_lits(er)
-        ctx.ob("SEPS", "exl|reader-comma", rl.get("split_once", set()) == {","}, f"reader splits rows on {sorted(rl.get('split_once', set()))}", er.file, er.line)
-        eqs = set()
-        for k_, v in rl.items():
-            if k_ in ("eq", "ne"):
-                eqs |= v
-        ctx.ob("SEPS", "exl|reader-header-name", "EXLT" in eqs, f"reader recognises the header row by comparing the name with {sorted(eqs)}", er.file, er.line)
-        ctx.ob("SEPS", "exl|reader-comment", rl.get("starts_with", set()) == {"#"}, f"reader skips rows starting with {sorted(rl.get('starts_with', set()))}", er.file, er.line)
-        calls_r = [(t.get("res") or "") for _bi, t in er.calls()]
-        ctx.ob("SEPS", "exl|reader-lines", any(c.endswith("::lines") for c in calls_r), "reader splits rows with lines()", er.file, er.line, trivial=True)
-        # version/entries destinations
-        eix = index_of(er)
-        ver = ent = False
-        for _bi, _si, s in er.stmts():
-            if s["k"] == "assign" and any(isinstance(pr, dict) and pr.get("n") == "version" for pr in s["lhs"]["p"]):
-                ver = True
-        for _bi, t in er.calls():
-            if (t.get("res") or "").endswith("::push") and "entries" in derive(eix, t["args"][0]).names:
-                ent = True
-        ctx.ob("ORDER", "exl|reader-destinations", ver and ent, "the EXLT row sets version; other rows are appended to entries in file order", er.file, er.line)
+        exl_reader(ctx, er, "SEPS", "ORDER")
         wix = index_of(ew)
         it_ok = any("entries" in derive(wix, t["args"][0]).names for _bi, t in ew.calls() if (t.get("res") or "").endswith("into_iter") or (t.get("res") or "").endswith("::iter"))
         ctx.ob("ORDER", "exl|writer-iterates-entries", it_ok, "the writer walks the entries list in order", ew.file, ew.line)
